@@ -2,7 +2,7 @@
 GENERATED import list — regenerate with `python3 tools/gen_all_imports.py` (from /verif); do not edit the
 imports by hand. `python3 tools/gen_all_imports.py --check` fails if a module on disk is not imported here.
 
-Imports every module of the libraries QmcModel, QmcProofs, QmcProps (165 modules), so that
+Imports every module of the libraries QmcModel, QmcProofs, QmcProps (168 modules), so that
 `lake build QmcAll` certifies that the whole development type-checks in ONE environment: no two modules
 declare the same name (Lean: "environment already contains …"). See design_notes/Cleanup.md.
 
@@ -54,8 +54,10 @@ import QmcProofs.ClusterComponents
 import QmcProofs.ClusterDraws
 import QmcProofs.ClusterExact
 import QmcProofs.ClusterGate
+import QmcProofs.ClusterNav
 import QmcProofs.ClusterRelax
 import QmcProofs.ClusterScan
+import QmcProofs.ClusterTraverse
 import QmcProofs.Common
 import QmcProofs.CommonRand
 import QmcProofs.Composed
@@ -106,6 +108,7 @@ import QmcProofs.LawRefresh
 import QmcProofs.LawSlot
 import QmcProofs.LawSweep
 import QmcProofs.LawTimestep
+import QmcProofs.LawTravOK
 import QmcProofs.LawTree
 import QmcProofs.Loop
 import QmcProofs.LoopConsistent
